@@ -226,6 +226,23 @@ def r112(ctx):
             ctx.ob("R11.2", R.mentions_param(e, src), f"{rst.name}/slot/{fld}",
                    f"NodeState::restore fills {fld} from `{render(e)[:100]}`", where=f"{rst.file}:{s.line}",
                    sample=f"{fld} <- {src}")
+    # restore_node installs the allowlist read from the store into the restored state, on every path to the node
+    rn = p.fn(LS + "node::Node::restore_node")
+    rnv = fnview(ctx, rn)
+    aw = [(bi, idx, obj) for (bb, bi, idx, obj) in R.field_writes(p, "NodeState", "allowlist") if bb is rn]
+    ctx.ob("R11.2", len(aw) >= 1, f"{rn.name}/installs-allowlist",
+           "restore_node does not install the persisted allowlist into the restored node state: the restarted signer "
+           "has an empty (or the encoded default) allowlist", where=f"{rn.file}:{rn.line}", sample="state.allowlist <- get_node_allowlist")
+    for bi, idx, obj in aw:
+        e = rnv._call_expr(obj, 0) if idx == "T" else (rnv.expr(obj.rv.ops[0]) if obj.rv.ops else ("opaque", "?"))
+        ctx.ob("R11.2", R.mentions_call(e, "get_node_allowlist"), f"{rn.name}/allowlist-source",
+               f"restore_node sets the allowlist from `{render(e)[:120]}` (expected Persist::get_node_allowlist)",
+               where=f"{rn.file}:{obj.line}", sample="allowlist <- persister.get_node_allowlist(node_id)")
+    wb = {bi for bi, _, _ in aw}
+    for bi, ln, c in R.call_blocks(rnv, lambda n: n == LS + "node::Node::new_from_persistence"):
+        ctx.ob("R11.2", bool(wb) and bi not in rnv.reach(0, cut_nodes=wb), f"{rn.name}/allowlist-before-node",
+               "restore_node can build the node without having installed the persisted allowlist", where=f"{rn.file}:{ln}",
+               sample="new_from_persistence dominated by the allowlist assignment")
     # new_from_persistence installs the stored enforcement state / setup / id unmodified
     nb = p.fn(LS + "node::Node::new_from_persistence")
     bodies = [nb] + p.closures_of(nb)
